@@ -18,6 +18,7 @@
 #include <algorithm>
 #include <set>
 #include <optional>
+#include <array>
 #include <utility>
 #include <AIToolbox/Utils/IndexMap.hpp>
 #include <sys/wait.h>
@@ -678,6 +679,16 @@ static void skipmap_case(Rng & rng) {
     { AIToolbox::IndexSkipMap<std::vector<size_t>*, std::vector<size_t>> m(&ids, cont); emitSkipWalk("ref", m, ids, cont, !c); }
     { AIToolbox::IndexSkipMap<std::vector<size_t>*, const std::vector<size_t>> m(&ids, cont); emitSkipWalk("cref", m, ids, cont, c); }
     if (N >= 3) { AIToolbox::IndexSkipMap m({(size_t)0, N - 2}, cont); emitSkipWalk("ilist", m, std::vector<size_t>{0, N - 2}, cont, c); }
+    if (N >= 1) {
+        // the library's own use (Polytope.hpp findVerticesNaive): a one-element std::array by pointer over a const range, re-pointed per iteration
+        std::array<size_t, 1> one;
+        const std::vector<size_t> & ccont = cont;
+        for (size_t i = 0; i < N; i += 1 + rng.below(3)) {
+            one[0] = i;
+            AIToolbox::IndexSkipMap m(&one, ccont);
+            emitSkipWalk("array1", m, std::vector<size_t>{i}, cont, true);
+        }
+    }
 }
 
 // IndexMap::sort(): `C20 srt <ids> <cont> | ids' values'`
@@ -708,6 +719,18 @@ static void match_case(Rng & rng) {
     l << F::match(a, b) << F::match(b, a) << F::match(f, a) << F::match(f, b); l.emit();
     std::printf("#stat match_%s 1\n", F::match(a, b) ? "compatible" : "conflict");
     std::printf("#stat match_sizes_%s 1\n", a.first.size() == b.first.size() ? "equal" : a.first.size() > b.first.size() ? "first_longer" : "second_longer");
+}
+
+// `merge(pf, pf)` of Core.cpp: how callers combine compatible keys (what reconstruct's returned Factors amount to).  `C20 mrg <a> <b> | <merged>`
+static void merge_case(Rng & rng) {
+    F::Factors sp((size_t)rng.range(2, 7));
+    for (auto & d : sp) d = (size_t)rng.range(1, 3);
+    PF a = randomPF(rng, sp, true), b = randomPF(rng, sp, true);
+    if (rng.coin(2, 3)) for (size_t i = 0; i < b.first.size(); ++i)       // make them compatible most of the time
+        for (size_t j = 0; j < a.first.size(); ++j) if (a.first[j] == b.first[i]) b.second[i] = a.second[j];
+    PF m = F::merge(a, b);
+    Line l; l << "C20" << "mrg"; pfTok(l, a); pfTok(l, b); l << "|"; pfTok(l, m); l.emit();
+    std::printf("#stat merge_%s 1\n", F::match(a, b) ? "compatible" : "conflict");
 }
 
 static void ctor_case() {
@@ -796,6 +819,7 @@ void verif::verif_case(Rng & rng, long idx, const std::string & tier) {
                 if (rng.coin()) fmc_case<F::Trie>(rng, sp, "trie"); else fmc_case<F::FasterTrie>(rng, sp, "ftrie");
             } else {
                 match_case(rng);
+                merge_case(rng);
                 if (i % 4 == 0) {
                     F::Factors sp((size_t)rng.range(2, 5));
                     for (auto & d : sp) d = (size_t)rng.range(1, 4);
